@@ -144,7 +144,7 @@ func runRuntime(cfg *Cfg) {
 		var n int
 		var err error
 		hx := "skip x" + hex.EncodeToString(bs)
-		out.Watch("C15", "skip-hang", "runtime.Skip", hx, 10*time.Second)
+		out.Watch("C15", "skip-hang", "runtime.Skip", hx, 60*time.Second)
 		p, msg := guard(func() { n, err = runtime.Skip(bs) })
 		out.Unwatch()
 		out.Case("skip"+hex.EncodeToString(bs), len(bs) > 0)
